@@ -21,6 +21,7 @@ EXPLANATION = (
     "and parse_unsat_core's regex (evaluated on checker-made samples) reads back exactly the ids the writer "
     "produces; refine() is exact (R04.2). Faithfulness of z3's printer is not decided."
     ' Also decided: the core reader accepts only a complete `unsat (...)` reply (evaluated on checker-made samples including truncated replies); solve_low_level rewrites the query file unconditionally before every solver run.'
+    ' Round 5: pending conditions are activated before a path can end (C13 R13.6).'
 )
 ASSUMPTIONS = ["z3 Solver.to_smt2 / translate are faithful", "solvers treat `(assert (! |id| :named <id>))` + `(assert (=> |id| c))` as the tracked assertion c"]
 
